@@ -33,7 +33,7 @@ end
 """
 import re
 
-DIRECTIVES = ('tail', 'hook_spec', 'hook_ensures', 'hook_requires', 'nohints', 'closure', 'serves', 'mode', 'ret', 'requires', 'ensures', 'loop', 'entry', 'at', 'after', 'outline', 'extra',
+DIRECTIVES = ('call_ensures', 'tail', 'hook_spec', 'hook_ensures', 'hook_requires', 'nohints', 'closure', 'serves', 'mode', 'ret', 'requires', 'ensures', 'loop', 'entry', 'at', 'after', 'outline', 'extra',
               'attr', 'recommends', 'decreases', 'sig', 'nounwind', 'specimpl', 'replace_sig')
 
 
@@ -76,6 +76,7 @@ class Contract:
         self.used = False
         self.nohints = False
         self.tail = None
+        self.call_ensures = []
         self.hook_spec = []
         self.hook_ensures = []
         self.hook_requires = []
@@ -174,6 +175,9 @@ def parse_sidecar(path):
         elif d == 'hook_spec':
             txt, i = block(i + 1)
             cur.hook_spec.append(txt)
+        elif d == 'call_ensures':
+            txt, i = block(i + 1)
+            cur.call_ensures.append(Clause(d, rest or ('c%d' % (len(cur.call_ensures) + 1)), txt, None, here, path))
         elif d in ('hook_ensures', 'hook_requires'):
             txt, i = block(i + 1)
             getattr(cur, d).append(Clause(d, rest or ('h%d' % (len(getattr(cur, d)) + 1)), txt, None, here, path))
